@@ -127,10 +127,9 @@ SetsClose(c) == \/ NonRawKV(c) /\ c.a[1] = NConnection /\ c.a[2] = BClose
 ConnConflict(calls) == IF \E i, j \in DOMAIN calls : i < j /\ StoresKeepAlive(calls[i]) /\ SetsClose(calls[j]) THEN "yes" ELSE "no"
 
 \* framingconflict = "yes": SetContentLength(negative) selected chunked framing and a LATER call stores a
-\* Content-Length (generic Set/Add/..., or SetContentLengthBytes): known finding C05-contentlength-after-chunked.
+\* Content-Length (generic Set/Add/...): known finding C05-contentlength-after-chunked.
 NegLen(c) == c.e \in {"ReqHeader.SetContentLength", "RespHeader.SetContentLength"} /\ c.a[1] # << >> /\ c.a[1][1] = 45
-StoresCL(c) == \/ NonRawKV(c) /\ c.a[1] = NContentLength
-               \/ c.e \in {"ReqHeader.SetContentLengthBytes", "RespHeader.SetContentLengthBytes"}
+StoresCL(c) == NonRawKV(c) /\ c.a[1] = NContentLength
 FramingConflict(calls) == IF \E i, j \in DOMAIN calls : i < j /\ NegLen(calls[i]) /\ StoresCL(calls[j]) THEN "yes" ELSE "no"
 
 RawCookie(c) == /\ EntryTable[c.e].tgt = "req"
